@@ -124,7 +124,10 @@ def check_loop(ctx, w):
             good = stm == want[:2] and ev[-1] == ('end', 'break') and ev.index(('c', cs[0])) == 2
         elif cs == [expr.neg(empty)]:
             seen.add('op')
-            good = stm == want and ev[-1] == ('end', 'fall')
+            # the fallback name of an unknown opcode is a formatted text: any formatting of `op` is the same decision
+            nm = [x for x in stm if x.startswith('op_name = DW_OP_opcode2name.get(op, ')]
+            good = len(stm) == len(want) and len(nm) == 1 and [a for a in stm if a not in nm] == [b for b in want if not b.startswith('op_name =')] and \
+                stm.index(nm[0]) == 3 and ev[-1] == ('end', 'fall')
         else:
             good = False
         if not good:
